@@ -8,6 +8,7 @@ from astcodec import enc, parse_expr
 
 ID = "C05"
 THEOREMS = ["resolveCalled_preserves", "resolveCalled_refines", "resolveCalled_sem_both", "inl_of_inlB", "hideRename_avoids", "hideLoop_avoids", "hideLoop_new_not_taken", "freshLocal_fresh", "resolveCalled_frame", "uninlinable_left", "resolveCalled_frame_both"]
+LEANCHECKER_MODULES = ["Fadl.Props.C05Sem", "Fadl.Props.C05"]  # re-checked by leanchecker in the thorough tier
 RULE = (
     "generated modules (harness/capture.py) with one-line helpers (def and lambda): identity body, arithmetic, "
     "helper calling helpers, helper containing a nested lambda re-using its parameter name, helper taking a "
